@@ -34,7 +34,7 @@ func init() {
 		Batches: func(t string) int {
 			return 16
 		},
-		Rule: "each case = one trie of 1-300 keys (C17 generator: prefix-of-other-key, extension, sibling nibble, long shared prefix; values 1-100 bytes around the 32-byte embedding boundary; random snapshot/flush/reload regime; bytes or object API). Up to 24 stored keys: GetProof must be non-nil and Prove must return the model's value on (a) a fresh immutable made from the root hash over an EMPTY db, (b) one accumulating verifier over an empty db, (c) the producing snapshot, (d) a fresh immutable over the populated db. Alterations of each proof, each tried on a fresh empty-db verifier and on the accumulating verifier: one bit flipped in every element (first byte, last byte, 3 random bits), every element dropped, last dropped, adjacent elements swapped, every element duplicated, one extra element appended (copy of an element / random bytes), element replaced by the same-position element of another key's proof; plus the untouched proof against another trie's root (a one-value-different sibling trie and an unrelated trie). Up to 16 absent near-miss keys: Prove with the trie's own GetProof output, with nil, and with a stored neighbour's proof must not yield a value. Non-trivial = distinct (root,key) whose proof has >=2 elements and whose alterations were all evaluated, or distinct (root, absent key) for which GetProof returned a non-nil proof.",
+		Rule: "each case = one trie of 1-300 keys (C17 generator: prefix-of-other-key, extension, sibling nibble, long shared prefix; values 1-100 bytes around the 32-byte embedding boundary; random snapshot/flush/reload regime; bytes or object API). Up to 24 stored keys: GetProof must be non-nil and Prove must return the model's value on (a) a fresh immutable made from the root hash over an EMPTY db, (b) one accumulating verifier over an empty db, (c) the producing snapshot, (d) a fresh immutable over the populated db. Alterations of each proof, each tried on a fresh empty-db verifier and on the accumulating verifier: one bit flipped in every element (first byte, last byte, 3 random bits), every element dropped, last dropped, adjacent elements swapped, every element duplicated, one extra element appended (copy of an element / random bytes), element replaced by the same-position element of another key's proof; plus the untouched proof against another trie's root (a one-value-different sibling trie and an unrelated trie). Verifier life cycles: one empty-db verifier reused for up to 8 keys with Flush() of the verifier after every accepted proof, and (flushed tries) a verifier opened from the populated db after Get/iteration; on both, all alterations of the next key's proof and the proof of the same key produced by another VERSION of the trie (one value changed elsewhere) must be rejected and the true proof accepted. Up to 16 absent near-miss keys: Prove with the trie's own GetProof output, with nil, and with a stored neighbour's proof must not yield a value. Non-trivial = distinct (root,key) whose proof has >=2 elements and whose alterations were all evaluated, or distinct (root, absent key) for which GetProof returned a non-nil proof.",
 		MinNonTrivial: func(t string) int {
 			if t == ev.Thorough {
 				return 100000
@@ -44,7 +44,8 @@ func init() {
 		Required: []string{"proofs_verified_fresh_emptydb", "proofs_verified_accumulating", "proofs_verified_producer", "proof_elements",
 			"alter_bitflip_rejected", "alter_drop_rejected", "alter_swap_rejected", "alter_duplicate_rejected", "alter_append_rejected",
 			"alter_foreign_element_rejected", "wrong_root_rejected", "absent_keys_checked", "absent_with_nonnil_proof",
-			"absent_with_neighbour_proof", "proofs_len1", "proofs_len_ge3", "object_api_tries", "bytes_api_tries"},
+			"absent_with_neighbour_proof", "proofs_len1", "proofs_len_ge3", "object_api_tries", "bytes_api_tries",
+			"proofs_on_flushed_verifier", "proofs_on_db_backed_verifier_after_get", "verifier_flushes", "other_version_proofs_rejected", "lifecycle_valid_proofs_accepted"},
 		Assumptions: []string{"SHA3-256 is collision resistant (an altered element is never a second preimage)",
 			"'rejected' = Prove returns an error or no value; 'yields a value' = non-nil value with nil error"},
 		TimeoutSec: func(t string) int {
@@ -219,6 +220,8 @@ func run(c *ev.Ctx) {
 
 		// another trie: one value differs (shares most nodes) and an unrelated one
 		var otherRoots [][]byte
+		var otherVersion tg.Snap // same trie with ONE value changed: its proofs share every subtree but one with ours
+		var otherVersionKey string
 		{
 			m2 := f.MutableFrom(snap)
 			k := keys[r.Intn(len(keys))]
@@ -227,7 +230,9 @@ func run(c *ev.Ctx) {
 				v2 = append(v2, 1)
 			}
 			m2.Set([]byte(k), v2)
-			otherRoots = append(otherRoots, m2.Snapshot().Hash())
+			otherVersion = m2.Snapshot()
+			otherVersionKey = k
+			otherRoots = append(otherRoots, otherVersion.Hash())
 			m3, _, _ := tg.BuildRandom(r, f, 1+r.Intn(20))
 			otherRoots = append(otherRoots, m3.Snapshot().Hash())
 		}
@@ -348,6 +353,12 @@ func run(c *ev.Ctx) {
 			prevProof, prevKey = orig, keys[ki]
 		}
 
+		// verifier life cycles: ONE verifier reused across proofs with Flush() in between, and a
+		// verifier opened from the populated database whose upper nodes were loaded by ordinary reads
+		if !lifeCycles(c, r, t, f, snap, d, flushed, keys, order, otherVersion, otherVersionKey) {
+			return
+		}
+
 		// absent keys
 		for _, k := range tg.AbsentKeys(r, model, 16) {
 			if c.Stopped() {
@@ -408,4 +419,93 @@ func run(c *ev.Ctx) {
 			}
 		}
 	})
+}
+
+// lifeCycles: state carried over on one verifying trie object.
+func lifeCycles(c *ev.Ctx, r *rand.Rand, t *trieCase, f tg.Factory, snap tg.Snap, d db.Database, flushed bool,
+	keys []string, order []int, otherVersion tg.Snap, otherVersionKey string) bool {
+	root := t.root
+	n := len(order)
+	if n > 8 {
+		n = 8
+	}
+	type life struct {
+		name, cnt string
+		v         tg.Snap
+		flush     bool
+	}
+	lives := []life{{"flushed-verifier", "proofs_on_flushed_verifier", f.NewImmutable(db.NewMapDB(), root), true}}
+	if flushed {
+		v := f.NewImmutable(d, root)
+		// ordinary reads load the upper nodes from the database
+		for i := 0; i < 6 && i < len(keys); i++ {
+			v.Get([]byte(keys[r.Intn(len(keys))]))
+		}
+		if r.Intn(2) == 0 {
+			v.Iterate(nil, false)
+		}
+		lives = append(lives, life{"db-backed-verifier-after-get", "proofs_on_db_backed_verifier_after_get", v, r.Intn(2) == 0})
+	}
+	allOK := true
+	for _, lf := range lives {
+		var prev [][]byte
+		lifeOK := true
+		for i := 0; i < n && lifeOK; i++ {
+			if c.Stopped() {
+				return false
+			}
+			k := []byte(keys[order[i]])
+			want := t.model[keys[order[i]]]
+			proof := snap.GetProof(k)
+			if proof == nil {
+				t.viol("getproof.nil-for-stored-key", map[string]interface{}{"key": hx(k)})
+				return false
+			}
+			// first key on the flushed verifier: nothing is installed yet, accept + flush first
+			if !(lf.flush && i == 0 && lf.name == "flushed-verifier") {
+				alts := alterations(r, proof, prev)
+				if otherVersion != nil && keys[order[i]] != otherVersionKey {
+					if op := otherVersion.GetProof(k); op != nil && !sameProof(op, proof) {
+						alts = append(alts, alteration{"other_version_proof", "proof of the same key produced by the trie with one other value changed", op})
+					}
+				}
+				for _, a := range alts {
+					c.Eval(1)
+					got, err, pn := prove(lf.v, k, cloneProof(a.proof))
+					if pn != nil {
+						t.viol("prove.altered-proof.panic."+a.class+"."+lf.name, map[string]interface{}{"key": hx(k), "altered": hexProof(a.proof), "alteration": a.desc, "panic": fmt.Sprint(pn)})
+						return false
+					}
+					if err == nil && got != nil {
+						t.viol("prove.altered-proof-accepted."+a.class+"."+lf.name, map[string]interface{}{"key": hx(k), "proof": hexProof(proof), "altered": hexProof(a.proof),
+							"alteration": a.desc, "verifier": lf.name, "keys_proved_and_flushed_before": i, "yielded": hx(got), "stored_value": hx(want)})
+						allOK, lifeOK = false, false
+						continue
+					}
+					c.Count(lf.cnt, 1)
+					if a.class == "other_version_proof" {
+						c.Count("other_version_proofs_rejected", 1)
+					}
+				}
+			}
+			got, err, pn := prove(lf.v, k, cloneProof(proof))
+			if pn != nil || err != nil || got == nil || !bytes.Equal(got, want) {
+				t.viol("prove.own-proof-not-accepted."+lf.name, map[string]interface{}{"key": hx(k), "proof": hexProof(proof), "want": hx(want), "got": hx(got), "err": fmt.Sprint(err), "panic": fmt.Sprint(pn)})
+				return false
+			}
+			c.Count("lifecycle_valid_proofs_accepted", 1)
+			if lf.flush {
+				ok, err := tg.FlushVerifier(lf.v)
+				if err != nil {
+					t.viol("verifier.flush-error."+lf.name, map[string]interface{}{"err": err.Error()})
+					return false
+				}
+				if ok {
+					c.Count("verifier_flushes", 1)
+				}
+			}
+			prev = proof
+		}
+	}
+	return allOK
 }
